@@ -203,6 +203,11 @@ import BGV
 #print axioms BGV.C17_iter_deref_defined
 #print axioms BGV.C17_enumeration_observers_no_ub
 #print axioms BGV.C17_bfs_no_ub
+#print axioms BGV.C17_allpred_no_ub
+#print axioms BGV.C17_findGeodesics_no_ub
+#print axioms BGV.C17_conversions_no_ub
+#print axioms BGV.C17_ctor_no_ub
+#print axioms BGV.C17_subgraph_no_ub
 
 -- C19
 #print axioms BGV.C19_bfs_scans
